@@ -130,6 +130,10 @@ func runProm(seed int64, n int) {
 			}
 			stat("prom_"+mode, 1)
 			kind, msg := checkProm(mode, body, ser, steps)
+			if kind == "query-rejected" { // the generated PromQL text was refused: nothing was rendered, nothing to judge
+				stat("prom_query_rejected", 1)
+				continue
+			}
 			if kind == "" {
 				stat("prom_ok", 1)
 				if nser >= 2 {
@@ -147,6 +151,9 @@ func checkProm(mode, body string, ser []promSeries, steps int) (string, string) 
 	doc, err := strictParse([]byte(body))
 	if err != nil {
 		return "invalid-json", err.Error()
+	}
+	if top, ok := asObj(doc); ok && top["status"] == "error" {
+		return "query-rejected", fmt.Sprint(top["error"])
 	}
 	res, err := dataResult(doc, mode)
 	if err != nil {
